@@ -114,7 +114,19 @@ Kxxk(p) == \E bk \in Squares, x \in Squares :
                   IN /\ bk # ak /\ ~Adjacent(ak, bk) /\ x < y /\ Cardinality({ak, bk, x, y}) = 4
                      /\ p = Pos(Put(Put(Put(Put(EmptyBoard, ak, Mk(c, "K")), bk, Mk(Other(c), "K")), x, Mk(c, k1)), y, Mk(c, k2)), stm, {}, 0)
 
+\* ---- king and one minor piece each, around a corner: the only checkmates with this material (the mated king's own
+\* piece takes its last flight square).  shard = corner (0..3) + 4 for Black attacking ----
+Near(c0, d) == { s \in Squares : (IF FileOf(s) >= FileOf(c0) THEN FileOf(s) - FileOf(c0) ELSE FileOf(c0) - FileOf(s)) <= d
+                                  /\ (IF RankOf(s) >= RankOf(c0) THEN RankOf(s) - RankOf(c0) ELSE RankOf(c0) - RankOf(s)) <= d }
+MinorFamily ==
+  LET c == IF Shard < 4 THEN "w" ELSE "b"
+      corner == <<1, 8, 57, 64>>[(Shard % 4) + 1]
+  IN { Pos(Put(Put(Put(Put(EmptyBoard, corner, Mk(Other(c), "K")), own, Mk(Other(c), k2)), ak, Mk(c, "K")), x, Mk(c, k1)), stm, {}, 0) :
+         <<own, ak, x, k1, k2, stm>> \in { q \in KingTo[corner] \X Near(corner, 3) \X Near(corner, 3) \X {"B", "N"} \X {"B", "N"} \X {"w", "b"} :
+                                              Cardinality({corner, q[1], q[2], q[3]}) = 4 /\ ~Adjacent(q[2], corner) } }
+
 Candidates == CASE Family = "KXK" -> { p \in Kxk : KxkOk(p) }
+                [] Family = "MINOR" -> MinorFamily
                 [] Family = "EP" -> { p \in EpFamily : EpOk(p) }
                 [] Family = "CASTLE" -> { p \in CastleFamily : CastleOk(p) }
                 [] Family = "PROMO" -> { p \in PromoFamily : PromoOk(p) }
